@@ -5,6 +5,7 @@ from vf.contracts import contract, Loop
 REL = "p_relpath(p_join(top, {n}), root if root is not None else top)"
 contract(
     "ascmhl.traverse.post_order_lexicographic",
+    slices=8,
     params={"top": "str", "ignore_pathspec": "pathspec?", "root": "str?"},
     stop_at="for name, is_dir in children:",
     yields="list[int]",
